@@ -593,23 +593,14 @@ def run(tier, seed):
         mq, mp = r.vec(), r.vec()
         if not (common.vbits(mq, qq) and common.vbits(mp, pp)):
             sr.disagree(stim, {"q": mq, "p": mp}, {"q": qq.ravel().tolist(), "p": pp.ravel().tolist()}, "corrector differs from reflect1")
-        # the property's own words, on the implementation: a coordinate that violates a bound (by no more than the box is wide) is mirrored
-        # about that bound and exactly its momentum component changes sign; every other coordinate and component is untouched
+        # the property's own words, on the implementation: mirror reflection at the bounds - a coordinate that violates a bound is mirrored about it
+        # (again about the other wall if it then violates that one, and so on: a billiard), its momentum component changes sign with every reflection;
+        # every other coordinate and component is untouched. Reference: the billiard itself, one wall at a time (distgen.reflect_box).
+        from .. import distgen as _dg
         eq, ep = q.copy(), p.copy()
-        single = True
-        for i in range(len(q)):
-            lo = None if L is None else L[i, 0]
-            hi = None if U is None else U[i, 0]
-            if lo is not None and q[i, 0] < lo:
-                eq[i, 0] = 2 * lo - q[i, 0]
-                ep[i, 0] = -p[i, 0]
-                single = single and (hi is None or eq[i, 0] <= hi)
-            elif hi is not None and q[i, 0] > hi:
-                eq[i, 0] = 2 * hi - q[i, 0]
-                ep[i, 0] = -p[i, 0]
-                single = single and (lo is None or eq[i, 0] >= lo)
-        if single and np.all(np.isfinite(q)) and not (np.allclose(qq, eq, rtol=0, atol=1e-12 * (1 + np.max(np.abs(eq)))) and np.array_equal(pp, ep)):
-            findings.append(Finding("C01", f"corrector of a {flavour} target: a violating coordinate is not mirrored about its bound with exactly its momentum component negated",
+        _dg.reflect_box(L, U, eq, ep)
+        if np.all(np.isfinite(q)) and not (_dg.reflect_close(qq, eq, L, U) and np.array_equal(pp, ep)):
+            findings.append(Finding("C01", f"corrector of a {flavour} target: a violating coordinate is not mirrored about its bound(s) with its momentum component negated at every reflection",
                                     {"kind": "corrector", "flavour": flavour}, {"oracle": "reflect", "stimulus": stim, "observed": {"q": qq.ravel().tolist(), "p": pp.ravel().tolist()},
                                                                                   "expected": {"q": eq.ravel().tolist(), "p": ep.ravel().tolist()}}))
     if sr.samples == [] and metas:
@@ -683,6 +674,12 @@ def roundtrip_suite(rnd, N, focus=None):
         dist, tstr, bstr, tdesc, lb, ub = make_target(rnd, kind, d, boxed)
         mass, mstr, mdesc = make_mass(rnd, mkind, d)
         h = rnd.choice([0.05, 0.1, 0.2])
+        if kind == "uniform" and rnd.random() < 0.6:
+            # "every step size": drifts longer than the box is wide (several bounces per drift). On a flat target only: there the motion is a billiard and
+            # rounding errors grow linearly; with a curved potential a step beyond the stability limit of the integrator amplifies them exponentially and
+            # the round trip misses the start for that reason alone
+            h = rnd.choice([1.0, 2.0, 5.0])
+            so.count("step longer than the box")
         q0 = inside_start(rnd, d, lb, ub)
         p0 = np.array([[rnd.gauss(0, 1)] for _ in range(d)])
         stim = {"integrator": integ, "n": n, "target": tdesc, "mass": mdesc, "h": h, "q0": q0.ravel().tolist(), "p0": p0.ravel().tolist()}
